@@ -9,4 +9,11 @@ uint64_t rt_nondet_u64(void);
 uint32_t rt_nondet_u32(void);
 uint8_t rt_nondet_u8(void);
 int rt_nondet_bool(void);
+uint32_t rt_stamp(void);     /* strictly increasing logical time; not a scheduling point */
+void rt_gset(uint32_t idx, uint64_t v);   /* ghost cell write (invisible to the scheduler and to the store buffers) */
+uint64_t rt_gget(uint32_t idx);
+void rt_bset(uint32_t bank, uint32_t idx, uint32_t v);   /* small ghost arrays (RT_NBANK x RT_BANKSZ) for symbolic indices */
+uint32_t rt_bget(uint32_t bank, uint32_t idx);
+void rt_wait_eq(uint32_t idx, uint64_t val);   /* block until ghost cell idx == val */
+uint32_t rt_self(void);      /* slot number of the executing thread */
 #endif
